@@ -1,5 +1,5 @@
 (* C04 - Decoding untrusted CTAP2 bytes never panics, aborts or hangs. *)
-From Ctap Require Import Base Schema Wire Utf8 Typed Procs Inst Tables ProcTables CborItem WireP SkipP TypedP FramingP C11P Finite Utf8P StrsP SerP TotalP ObRequestSide ObOpTables ObRequestTotal FnShapes Shapes ObShapeRequest ObShapeStrings.
+From Ctap Require Import Base Schema Wire Utf8 Typed Procs Inst Tables ProcTables CborItem WireP SkipP TypedP FramingP C11P Finite Utf8P StrsP SerP TotalP ObRequestSide ObOpTables ObRequestTotal FnShapes Shapes ObShapeRequest ObShapeStrings ObAllTotal.
 Local Open Scope string_scope.
 Local Open Scope Z_scope.
 
@@ -124,6 +124,19 @@ Proof.
   - exact (no_broken_route b w Hb R).
 Qed.
 
+(* the public nested types decoded stand-alone: EVERY declaration of the crate that can be deserialised at all
+   (requests, responses, entities, descriptors, options, extensions, enumerations, COSE key ...) is decoded
+   totally - any bytes, no panic, no exhaustion - in every feature configuration *)
+Theorem c04_generated_all_types_decodable : forallb (fun f => all_de_decodable (gen_env f)) all_feats = true.
+Proof. exact generated_all_de_decodable. Qed.
+Theorem c04_every_deserializable_type_total : forall f name d i, In f all_feats ->
+  In (name, d) (gen_env f) -> decl_de d = true -> clean (decode (gen_env f) (TNamed name) i).
+Proof.
+  intros f name d i Hf Hin Hd.
+  exact (all_de_total (gen_env f) name d i
+           (forallb_In (fun f => all_de_decodable (gen_env f)) all_feats f generated_all_de_decodable Hf) Hin Hd).
+Qed.
+
 (* tie to the source *)
 Theorem c04_generated_conforms :
   forallb (fun f => request_side_conforms (gen_env f) (spec_env f)) all_feats = true.
@@ -154,3 +167,5 @@ Eval vm_compute in "ASSUMPTIONS c04_request_deserialize_total". Print Assumption
 Eval vm_compute in "ASSUMPTIONS c04_generated_request_deserialize_total". Print Assumptions c04_generated_request_deserialize_total.
 Eval vm_compute in "ASSUMPTIONS c04_modelled_functions_unchanged_request". Print Assumptions c04_modelled_functions_unchanged_request.
 Eval vm_compute in "ASSUMPTIONS c04_modelled_functions_unchanged_strings". Print Assumptions c04_modelled_functions_unchanged_strings.
+Eval vm_compute in "ASSUMPTIONS c04_generated_all_types_decodable". Print Assumptions c04_generated_all_types_decodable.
+Eval vm_compute in "ASSUMPTIONS c04_every_deserializable_type_total". Print Assumptions c04_every_deserializable_type_total.
